@@ -87,6 +87,9 @@ def install():
 def plan(tier, rng, sl, nslices, stats):
     cfg = TIERS[tier]
     for _ in range(cfg["random"]):
+        if rng.random() < 0.15:
+            yield gfa.random_loop_case(rng, vcs=["int", "str", "reservedfa"])
+            continue
         c = gfa.random_case(rng, max_states=rng.choice([2, 3, 4, 5]), token=True)
         if len(c["trans"]) > 9:      # state elimination output grows exponentially with density
             rng.shuffle(c["trans"])
